@@ -85,6 +85,9 @@ pub struct SutOptions {
     pub sample_rate: u32,
     #[serde(default)]
     pub self_init_0: bool,
+    /// register the symphonia sampler plugin (`Sampler_mono!`); `vm` backend only
+    #[serde(default)]
+    pub with_sampler: bool,
 }
 
 impl SutOptions {
@@ -290,6 +293,9 @@ fn make_ctx(
     let mut ctx = ExecContext::new(plugins.into_iter(), path, opts.lang_config());
     if opts.with_scheduler {
         ctx.add_system_plugin(mimium_scheduler::get_default_scheduler_plugin());
+    }
+    if opts.with_sampler {
+        ctx.add_system_plugin(mimium_symphonia::SamplerPlugin::default());
     }
     ctx
 }
